@@ -641,6 +641,9 @@ func (g *c06gen) deepRecursion() {
 	fmt.Fprintf(&b, "def %s(n, c):\n    for x in c:\n", fn)
 	if g.r.Chance(1, 3) {
 		fmt.Fprintf(&b, "        if n %% 25000 == 7:\n            must_fail(%s, c)\n", g.mut(c))
+	} else if g.r.Chance(1, 2) {
+		// exactly 2^16 (and 2^15, 2^8) iterators live on the one collection
+		fmt.Fprintf(&b, "        if n == 65535 or n == 32767 or n == 255:\n            must_fail(%s, c)\n", g.mut(c))
 	}
 	b.WriteString(stop)
 	fmt.Fprintf(&b, "        return %s(n + 1, c) + 1\n    return n\n", fn)
